@@ -586,14 +586,15 @@ def _case_multi(ctx, prm):
                 tag = "same-dof" if i == j else "different-dofs"
                 ctx.count(f"observation:{cname} 'a a^dagger' {tag} -> " +
                           ("|j><i|" if _same(got, unit(j + off, i + off), 1e-14) else "other"))
-    first = {"I": np.eye(dim)}
+    before = _call(basis.op_mat, Op(r"a^\dagger a", [dofs[0], dofs[-1]]))
     r = _call(basis.op_mat, Op("x", dofs[0]))
-    if isinstance(r, _Crash):
+    if isinstance(r, _Crash) and not isinstance(before, _Crash):
         ctx.refuse(f"{cname}.op_mat: " + ("is not supported" if _is_refusal(r) else r.msg[:60]))
+        ctx.cls("after-failed-call")
         got = _call(basis.op_mat, Op(r"a^\dagger a", [dofs[0], dofs[-1]]))
         ctx.count("history_checks")
         if _promised(ctx, got, f"{cname}|history"):
-            _cmp(ctx, got, unit(off, n - 1 + off), 1e-14, f"{cname}|history|matrix-changes-after-failed-call")
+            _cmp(ctx, got, before, 1e-14, f"{cname}|history|matrix-changes-after-failed-call")
 
 
 def _case_hops(ctx, prm):
@@ -636,7 +637,8 @@ def _unit_per_au():
     return {"a.u.": 1.0, "au": 1.0, "eV": ev, "meV": ev * 1e3, "cm-1": cm, "cm^{-1}": cm, "K": kel, "fs": fs}
 
 
-CODATA = {"eV": 27.211386, "meV": 27211.386, "cm-1": 219474.63, "cm^{-1}": 219474.63, "K": 315775.0, "fs": 0.0241888433,
+CODATA = {"eV": 27.211386246, "meV": 27211.386246, "cm-1": 219474.631363, "cm^{-1}": 219474.631363, "K": 315775.0248,
+          "fs": 0.02418884326586,
           "a.u.": 1.0, "au": 1.0}
 _UPA = None
 
